@@ -105,10 +105,15 @@ def mapS (f : σ → L → Except ε (M × σ)) : σ → List L → Except ε (L
       | .error e => .error e
       | .ok (ms, s'') => .ok (m :: ms, s'')
 
+/-- position-wise relation of two lists (core Lean has no `List.Forall₂`) -/
+inductive Forall2 {α β : Type} (R : α → β → Prop) : List α → List β → Prop
+  | nil : Forall2 R [] []
+  | cons {a b as bs} : R a b → Forall2 R as bs → Forall2 R (a :: as) (b :: bs)
+
 /-- `t'` is `t` with every leaf replaced by an `R`-related one: same containers, same atoms, leaves
     related position by position -/
 def Rel (R : L → M → Prop) (t : Tree L) (t' : Tree M) : Prop :=
-  t.skel = t'.skel ∧ List.Forall₂ R t.leaves t'.leaves
+  t.skel = t'.skel ∧ Forall2 R t.leaves t'.leaves
 
 end Tree
 
